@@ -197,6 +197,14 @@ var scratchRoot string
 var caseNo int
 var keepDir string
 
+var signedDeclRe = regexp.MustCompile(`\b(input|output|wire|reg|parameter|localparam)(\s+reg)?\s+signed\b`)
+var signedFnRe = regexp.MustCompile(`\$(un)?signed\b`)
+
+func unsign(src string) string {
+	src = signedDeclRe.ReplaceAllString(src, "$1$2")
+	return signedFnRe.ReplaceAllString(src, "")
+}
+
 var moduleRe = regexp.MustCompile(`(?m)^\s*module\s+([A-Za-z_][A-Za-z0-9_$]*)`)
 
 // vendor primitives instantiated by board flavors / helper files: a *named* external-IP list
@@ -256,7 +264,7 @@ func emit(s *spec) {
 		}
 	}
 	sort.Strings(names)
-	var tbs, opaque []string
+	var tbs, opaque, unsigned []string
 	good := map[string]string{}
 	for _, n := range names {
 		b, err := os.ReadFile(filepath.Join(dir, n))
@@ -266,6 +274,13 @@ func emit(s *spec) {
 		if strings.HasSuffix(n, "_tb.v") || n == "testbench.v" {
 			tbs = append(tbs, n)
 			continue
+		}
+		// signedness does not matter to any class of this lint (declared names, ports, drivers):
+		// `signed` in declarations and `$signed(...)` are removed from the text that is parsed, so that
+		// the float / fixed-point helper modules can be read; the files concerned are listed (line G)
+		if stripped := unsign(string(b)); stripped != string(b) {
+			b = []byte(stripped)
+			unsigned = append(unsigned, n)
 		}
 		if _, err := vlog.ParseFile(n, string(b)); err != nil {
 			cls, pos, msg := "syntax", "0:0", err.Error()
@@ -295,6 +310,9 @@ func emit(s *spec) {
 	}
 	if len(opaque) > 0 {
 		out.Line("Q %s", strings.Join(opaque, " "))
+	}
+	if len(unsigned) > 0 {
+		out.Line("G %s", strings.Join(unsigned, " "))
 	}
 	out.Line("X %s", strings.Join(externalIP, " "))
 	if len(good) > 0 {
@@ -401,7 +419,7 @@ func soFacts(bm *bondmachine.Bondmachine) string {
 
 // initLQ gives the linear-quantizer family a range table, as `-linear-data-range` does in the CLIs
 func initLQ() {
-	ranges := map[int]bmnumbers.LinearDataRange{1: {Max: 3.3}}
+	ranges := map[int]bmnumbers.LinearDataRange{1: {Max: 3.3}, 2: {Max: 1.0}}
 	for i, t := range procbuilder.AllDynamicalInstructions {
 		if t.GetName() == "dyn_linear_quantizer" {
 			d := t.(procbuilder.DynLinearQuantizer)
